@@ -15,7 +15,7 @@ PROPERTY = "C14"
 LEVEL = "model_checking"
 ASSUMPTIONS = [
     "CPython's parser and inspect.signature define what the written signature is",
-    "defaults are int constants and names, annotations are names, subscripts and string annotations (expressions are C15's subject)",
+    "defaults are constants of every literal type (int, bool, float, None, str, bytes, negative number) and names, annotations are names, subscripts and string annotations (expressions are C15's subject)",
     "K14a extracts the nested function by name from the current source; if it is no longer there the harness reports SKIPPED and K14b alone decides",
 ]
 
@@ -108,6 +108,7 @@ MAXP = tier(2, 3)          # max positional-only, positional
 MAXK = 2                   # max keyword-only
 FULL = tier(False, True)
 ANN = ["", ": int", ": 'List[int]'", ": \"Foo\"", ": None", ": 'None'", ": List[None]"]
+DEFAULTS = ["100", "True", "1.0", "None", "'s'", "0.0", "False", "-1", "1", "0", "b'1'", "''"]
 RET = ["", " -> None", " -> int", " -> 'Foo'", " -> \"None\""]
 
 
@@ -129,7 +130,7 @@ def mk_source(npo, na, nd, va, nk, kmask, kw, annsel, ret, dname):
     allpos = [ann(next(names)) for _ in range(npo + na)]
     for j in range(len(allpos)):
         if j >= len(allpos) - nd:
-            val = "DEFAULT" if (dname and j % 2 == 0) else str(100 + j)
+            val = "DEFAULT" if (dname and j % 2 == 0) else DEFAULTS[(j + shift) % len(DEFAULTS)]
             allpos[j] += (" = " if ":" in allpos[j] else "=") + val
     parts = allpos[:npo]
     if npo:
@@ -142,7 +143,7 @@ def mk_source(npo, na, nd, va, nk, kmask, kw, annsel, ret, dname):
     for j in range(nk):
         p = ann(next(names))
         if (kmask >> j) & 1:
-            p += (" = " if ":" in p else "=") + str(200 + j)
+            p += (" = " if ":" in p else "=") + DEFAULTS[(j + shift + 3) % len(DEFAULTS)]
         parts.append(p)
     if kw:
         parts.append(ann("**kw"))
